@@ -357,3 +357,7 @@ PROPS["C12"]["thorough"].append({"variant": "default", "cases": 150000, "params"
 # C14 sparse lane: handles are read for the first time after the last operation (see the sparse lanes above)
 PROPS["C14"]["quick"].append({"variant": "default", "cases": 6000, "params": {"sparse": 1}, "timeout": 600})
 PROPS["C14"]["thorough"].append({"variant": "default", "cases": 150000, "params": {"sparse": 1, "case_timeout": 120}, "timeout": 3000})
+
+# C20 big-batch lane: one rule matching 10k-40k terms in one call, replayed alone and concurrently (large match lists / maps)
+PROPS["C20"]["quick"].append({"variant": "default", "cases": 16, "params": {"big": 1, "case_timeout": 300}, "timeout": 900})
+PROPS["C20"]["thorough"].append({"variant": "default", "cases": 160, "params": {"big": 1, "case_timeout": 600}, "timeout": 3000})
